@@ -124,6 +124,14 @@ def gen_setter_history(rng, k, sms):
     if b:
         pool['shared_objects'] = ['s', 0]
     calls = []
+    if k % 2 == 1:
+        # workers that stay alive WITHOUT keep_alive: they are started by apply_async; then a setter, then map calls
+        pool['keep_alive'] = False
+        calls.append({'kind': 'apply_batch', 'jobs': [{'id': 0, 'args': [700], 'cbs': [False, False]}], 'get_timeout': 30, 'no_join': True,
+                      'dynamic_extras': True})
+        which = rng.choice(['set_use_worker_state', 'pass_on_worker_id', 'set_shared_objects'])
+        calls.append({'kind': 'setter', 'name': which, 'args': [{'set_use_worker_state': not c, 'pass_on_worker_id': not a,
+                                                               'set_shared_objects': (None if b else ['s', 9])}[which]]})
     for j in range(rng.choice([3, 4])):
         calls.append({'kind': rng.choice(['map', 'map_unordered', 'imap', 'imap_unordered']), 'n': rng.choice([3, 8]), 'input': 'list',
                       'elem': rng.choice(['scalar', 'tuple']), 'params': {'chunk_size': rng.choice([1, 2])}, 'base': 1000 * (j + 1)})
